@@ -2,6 +2,7 @@ import XzVerif.Proofs.Segment
 import XzVerif.Proofs.Tables
 import XzVerif.Proofs.DictCap
 import XzVerif.Proofs.XzRoundTrip
+import XzVerif.Proofs.XzWriter
 /-
   C02 — Everything the xz writer emits is a valid .xz file for other implementations.
 
@@ -69,6 +70,21 @@ theorem C02_dict_size_covers (n : Nat) (h1 : 1 ≤ n) (h2 : n ≤ 2 ^ 32 - 1) :
 theorem C02_field_limits (c lo hi : Nat) (hlo : lo < 256) (hhi : hi < 256) :
     (c % 32) * 65536 + hi * 256 + lo + 1 ≤ 2 ^ 21 ∧ hi * 256 + lo + 1 ≤ 2 ^ 16 := by
   omega
+
+/-- **Block discipline** ("every block except the last carries exactly the configured block size"): for the model
+    of the xz writer's block bookkeeping (`Model/XzWriter.lean`: the loop of `Writer.Write` around
+    `blockWriter.Write`, `closeBlockWriter`, `newBlockWriter`, `Close`; tied to the real writer by predicting the
+    block sizes of every output), every block size ≥ 1 and every history of Write lengths followed by Close: the
+    block sizes add up to the bytes written, every block but the last holds exactly `bs` bytes, the last at most
+    `bs` and at least one byte unless it is the only block. -/
+theorem C02_block_discipline (bs : Nat) (hbs : 1 ≤ bs) (lens : List Nat) :
+    let st := XW.run bs lens
+    st.closed = true ∧ st.blocks.sum = lens.sum ∧ st.blocks ≠ [] ∧
+    (∀ b ∈ st.blocks.dropLast, b = bs) ∧
+    (∀ b, st.blocks.getLast? = some b → b ≤ bs ∧ (2 ≤ st.blocks.length → 1 ≤ b)) :=
+  XW.run_spec bs hbs lens
+
+example : (XW.run 10 [3, 7, 0, 25, 1]).blocks = [10, 10, 10, 6] := by decide
 
 example : Xz.padLen 5 = 3 ∧ Xz.padLen 8 = 0 := by decide
 
